@@ -59,7 +59,7 @@ def check_http(m):
             for f in ('method', 'version', 'code', 'reason'):
                 if o[f] != exp[f]:
                     note('wrong_startline', cuts, o, f)
-            if o['headers'] != exp['headers']:
+            if o['headers'] != exp['headers'] and not m.features.get('obs_fold'):
                 note('wrong_headers', cuts, o)
             if o['body'] != exp['body']:
                 note('wrong_body', cuts, o)
